@@ -3,6 +3,7 @@ from __future__ import annotations
 
 import importlib
 import json
+import os
 import sys
 import traceback
 import warnings
@@ -28,6 +29,8 @@ def main(argv: list[str]) -> int:
         json.dump(ctx.dump(), open(out, "w"))
         return 2
     warnings.simplefilter("ignore")
+    from vmon import reach
+    reach_on = os.environ.get("VMON_REACH", "1") != "0" and reach.start(pid)
     import numpy as np
 
     np.seterr(all="ignore")
@@ -56,8 +59,11 @@ def main(argv: list[str]) -> int:
             mod.finish(ctx)
         except Exception:
             ctx.harness_errors.append("finish: " + traceback.format_exc()[-1500:])
+    d = ctx.dump()
+    if reach_on:
+        d["reach"] = reach.stop()
     with open(out, "w") as f:
-        json.dump(ctx.dump(), f, default=repr)
+        json.dump(d, f, default=repr)
     return 0
 
 
